@@ -266,16 +266,22 @@ def scope_scenarios(run: Run, model: PyModel, tree0) -> None:
         return T("block", kids=list(items))
 
     page = [
-        head_tree("title +T #shared", 1),
+        head_tree("title +T #shared 2024-01-01", 1),
         block(item_tree("-", "first item +X #shared k::v1", None, 3)),
         T("h1_section", kids=[header_tree(1, H[1], "Sec +X +S k::v2", 5), block(item_tree("-", "second item", None, 6), item_tree("-", "third +X +S again", None, 7)),
                               T("h2_section", kids=[header_tree(2, H[2], "Sub +U +X", 8), block(item_tree("-", "fourth", None, 9))]),
                               T("h2_section", kids=[header_tree(2, H[2], "Sub2 +X", 10), block(item_tree("-", "fifth", None, 11))])]),
         T("h1_section", kids=[header_tree(1, H[1], "Other +X", 12), block(item_tree("-", "sixth", None, 13))]),
         T("h1_section", kids=[header_tree(1, H[1], "Last", 14), block(item_tree("-", "seventh", None, 15))]),
+        # dated headers, each directly preceded by an undated one-word item (whose note context must not capture the header's date)
+        T("h1_section", kids=[header_tree(1, H[1], "Dated 2024-03-05", 16), block(item_tree("-", "alpha beta", None, 17), item_tree("-", "milk", None, 18)),
+                              T("h2_section", kids=[header_tree(2, H[2], "Sub 2024-04-06", 19), block(item_tree("-", "gamma", None, 20))]),
+                              T("h2_section", kids=[header_tree(2, H[2], "Undated sub", 21), block(item_tree("-", "delta epsilon", None, 22))])]),
+        T("h1_section", kids=[header_tree(1, H[1], "Undated", 23), block(item_tree("-", "zeta", None, 24))]),
     ]
+    dates = {3: "20240101", 6: "20240101", 7: "20240101", 9: "20240101", 11: "20240101", 13: "20240101", 15: "20240101", 17: "20240305", 18: "20240305", 20: "20240406", 22: "20240305", 24: "20240101"}
     want = {3: ({"T", "X"}, {"k": "v1"}), 6: ({"T", "X", "S"}, {"k": "v2"}), 7: ({"T", "X", "S"}, {"k": "v2"}), 9: ({"T", "X", "S", "U"}, {"k": "v2"}), 11: ({"T", "X", "S"}, {"k": "v2"}),
-            13: ({"T", "X"}, {}), 15: ({"T"}, {})}
+            13: ({"T", "X"}, {}), 15: ({"T"}, {}), 17: ({"T"}, {}), 18: ({"T"}, {}), 20: ({"T"}, {}), 22: ({"T"}, {}), 24: ({"T"}, {})}
     D = Driver(model)
     st = State()
     try:
@@ -292,7 +298,7 @@ def scope_scenarios(run: Run, model: PyModel, tree0) -> None:
         run.undecided("C02.R2", "ZorgFileCompiler", "scope scenario: " + (f"raises {raised.exc}" if raised is not None else "; ".join(st.imprecise[:2])))
         return
     by_line = {n.get("line_no"): n for n in D.notes}
-    run.floor("notes of the scope scenario", len(by_line), 7)
+    run.floor("notes of the scope scenario", len(by_line), 12)
     for ln, (projects, props) in want.items():
         n = by_line.get(ln)
         if n is None:
@@ -311,6 +317,11 @@ def scope_scenarios(run: Run, model: PyModel, tree0) -> None:
         ok_k = isinstance(got_k, dict) and {k: v for k, v in got_k.items()} == props
         run.check("C02.R4", f"scope scenario, line {ln}: properties are {props}", ok_k, "ZorgFileCompiler", f"line {ln}: properties {got_k}",
                   f"the note on line {ln} gets properties {got_k}, expected {props} (innermost scope that defines the key wins; closed sections contribute nothing)", file=FILE)
+        got_d = n.get("create_date")
+        got_tag = getattr(got_d, "tag", got_d)
+        run.check("C02.R4", f"scope scenario, line {ln}: the create date is that of the nearest enclosing dated scope ({dates[ln]})", got_tag == dates[ln], "ZorgFileCompiler", f"line {ln}: create_date {got_tag}",
+                  f"the undated note on line {ln} gets the create date {got_tag}, expected {dates[ln]} (nearest enclosing section header that carries a date, else the title line's): a header's date is lost "
+                  "-- e.g. captured by the stale context of the one-word item before the header -- or leaks out of its section", file=FILE)
         got_a = n.get("areas")
         run.check("C02.R2", f"scope scenario, line {ln}: areas are ['shared'] (title line; written again on the first item)", isinstance(got_a, list) and set(got_a) == {"shared"}, "ZorgFileCompiler",
                   f"line {ln}: areas {got_a}", f"the note on line {ln} gets areas {got_a}, expected ['shared'] from the title line", file=FILE)
